@@ -17,7 +17,7 @@ def _run(seed):
     tick = rng.choice([0.01, 0.1, 1e-5]) if fine else 1.0
     base = int(round(300.0 / tick))
     m = drivers.mk_market(tick=tick, price=300.0) if fine else drivers.mk_market()
-    continuous = seed % 2 == 0
+    continuous = seed % 4 == 0        # otherwise the book accumulates (possibly crossed, possibly with market orders on both tops) and is matched at the end and after clock ticks
     m._is_running = continuous
     live = []
     for step in range(rng.randint(1, 14)):
@@ -34,6 +34,9 @@ def _run(seed):
                 m._cancel_order(Cancel(order=o))
         else:
             m._update_time(next_fundamental_price=10.0)
+            if not continuous and rng.random() < 0.5:
+                m.get_buy_order_book(); m.get_sell_order_book()      # a reader of the depth view (agents do this)
+                m._is_running = True; m._execution(); m._is_running = False
         if continuous and r < 0.85:
             m._execution()
     m._is_running = True
